@@ -447,6 +447,81 @@ func Shared(a, b *Reach) []SharedItem {
 	return out
 }
 
+// AmongItem is storage reachable from two different members of a family of values.
+type AmongItem struct {
+	I, J int // indices of the two members, I < J
+	SharedItem
+}
+
+// SharedAmong lists the storage that any two different members of rs have in common (one sweep
+// over all regions, so it is cheap for hundreds of members). Pairs for which skip(i, j) holds
+// (i < j) are not reported; skip may be nil. At most 16 items are returned.
+func SharedAmong(rs []*Reach, skip func(i, j int) bool) []AmongItem {
+	type tagged struct {
+		Region
+		owner int
+	}
+	var all []tagged
+	for i, r := range rs {
+		for _, reg := range r.Regions {
+			all = append(all, tagged{reg, i})
+		}
+	}
+	sort.SliceStable(all, func(i, j int) bool { return all[i].Start < all[j].Start })
+	var out []AmongItem
+	add := func(x, y tagged) bool {
+		if x.owner > y.owner {
+			x, y = y, x
+		}
+		if skip != nil && skip(x.owner, y.owner) {
+			return true
+		}
+		kind := x.Kind
+		if y.Kind != kind {
+			kind = x.Kind + "/" + y.Kind
+		}
+		out = append(out, AmongItem{x.owner, y.owner, SharedItem{kind, x.Type, x.Path, y.Path}})
+		return len(out) < 16
+	}
+	for i := range all {
+		for j := i + 1; j < len(all) && all[j].Start < all[i].End; j++ {
+			if all[i].owner == all[j].owner {
+				continue
+			}
+			if !add(all[i], all[j]) {
+				return out
+			}
+		}
+	}
+	type firstSeen struct {
+		owner int
+		path  string
+	}
+	seen := map[uintptr]firstSeen{}
+	for i, r := range rs {
+		ids := make([]uintptr, 0, len(r.Maps))
+		for id := range r.Maps {
+			ids = append(ids, id)
+		}
+		sort.Slice(ids, func(a, b int) bool { return r.Maps[ids[a]] < r.Maps[ids[b]] })
+		for _, id := range ids {
+			f, ok := seen[id]
+			if !ok {
+				seen[id] = firstSeen{i, r.Maps[id]}
+				continue
+			}
+			if f.owner == i || (skip != nil && skip(f.owner, i)) {
+				continue
+			}
+			out = append(out, AmongItem{f.owner, i, SharedItem{"map", "", f.path, r.Maps[id]}})
+			if len(out) >= 16 {
+				return out
+			}
+		}
+	}
+	return out
+}
+
 // overlaps finds overlapping ranges between as and bs (self=false) or among as (self=true,
 // distinct regions only).
 func overlaps(as, bs []Region, self bool) []SharedItem {
